@@ -61,6 +61,7 @@ type c05Mat struct {
 }
 
 type c05Env struct {
+	attacker   *ecdsa.PrivateKey // never published
 	mats       []*c05Mat
 	srv        *httptest.Server
 	bodies     sync.Map // path -> []byte
@@ -115,6 +116,9 @@ func c05NewEnv(t *testing.T) *c05Env {
 	_, err = rand.Read(secret)
 	must(err)
 	add("oct", secret, secret, c05HSAlgs, 0)
+
+	env.attacker, err = ecdsa.GenerateKey(elliptic.P256(), rand.Reader)
+	must(err)
 
 	// certificates for the first RSA key and the first two EC keys
 	ca, err := testsupport.NewRootCA("C05 Root CA", 24*time.Hour)
@@ -585,7 +589,7 @@ func c05GenDate(r *vf.Rand, which string, leeway int64) c05Date {
 var c05Mutations = []string{ //nolint:gochecknoglobals
 	"sig-flip", "sig-flip", "sig-empty", "sig-other", "sig-trailing-bits", "sig-trailing-bits",
 	"payload-edit", "payload-edit", "payload-edit", "header-alg", "header-alg", "header-kid", "header-extra",
-	"alg-none", "alg-none", "hs-pub", "hs-pub", "hs-pub",
+	"alg-none", "alg-none", "hs-pub", "hs-pub", "hs-pub", "embedded-jwk", "embedded-jwk", "struct-five",
 	"struct-opaque", "struct-two", "struct-four", "struct-b64", "struct-hdrjson", "struct-noalg",
 	"byteflip", "byteflip", "byteflip", "byteflip",
 }
@@ -1199,6 +1203,31 @@ func (e *c05Env) serialize(c *c05Case, now int64) string {
 		o, _ := obj.CompactSerialize()
 		parts = strings.Split(o, ".")
 		t.SigMats = nil
+	case "embedded-jwk":
+		// signed by the attacker, whose public key travels in the `jwk` header; the kid names a published key
+		opts := (&jose.SignerOptions{EmbedJWK: true}).WithType("JWT")
+		if t.Kid != "" {
+			opts = opts.WithHeader("kid", t.Kid)
+		}
+
+		signer, err := jose.NewSigner(jose.SigningKey{Algorithm: jose.ES256, Key: e.attacker}, opts)
+		if err != nil {
+			panic(err)
+		}
+
+		obj, err := signer.Sign(payload)
+		if err != nil {
+			panic(err)
+		}
+
+		o, _ := obj.CompactSerialize()
+		parts = strings.Split(o, ".")
+		t.Alg = "ES256"
+		t.SigMats = nil
+	case "struct-five":
+		t.Parses = false
+
+		return s + ".AAAA.BBBB" // five parts look like a JWE
 	case "struct-opaque":
 		t.Parses = false
 
@@ -1292,10 +1321,77 @@ func (e *c05Env) byteflip(c *c05Case, parts []string, payload []byte) string {
 	case 1:
 		var m map[string]any
 
-		t.PObj = json.Unmarshal(newBytes, &m) == nil
+		// go-jose's decoder refuses duplicate members, encoding/json does not
+		t.PObj = json.Unmarshal(newBytes, &m) == nil && !c05HasDupKeys(newBytes)
 	}
 
 	return out
+}
+
+// c05HasDupKeys reports whether some object of a valid JSON text has two members of the same name
+func c05HasDupKeys(b []byte) bool {
+	dec := json.NewDecoder(bytes.NewReader(b))
+
+	type frame struct {
+		obj   bool
+		keys  map[string]bool
+		isKey bool
+	}
+
+	var stack []*frame
+
+	for {
+		tok, err := dec.Token()
+		if err != nil {
+			return false
+		}
+
+		top := func() *frame {
+			if len(stack) == 0 {
+				return nil
+			}
+
+			return stack[len(stack)-1]
+		}
+
+		if d, ok := tok.(json.Delim); ok {
+			switch d {
+			case '{':
+				if f := top(); f != nil && f.obj {
+					f.isKey = true
+				}
+
+				stack = append(stack, &frame{obj: true, keys: map[string]bool{}, isKey: true})
+			case '[':
+				if f := top(); f != nil && f.obj {
+					f.isKey = true
+				}
+
+				stack = append(stack, &frame{})
+			default:
+				stack = stack[:len(stack)-1]
+			}
+
+			continue
+		}
+
+		f := top()
+		if f == nil || !f.obj {
+			continue
+		}
+
+		if f.isKey {
+			k, _ := tok.(string)
+			if f.keys[k] {
+				return true
+			}
+
+			f.keys[k] = true
+			f.isKey = false
+		} else {
+			f.isKey = true
+		}
+	}
 }
 
 // ---- running one case ------------------------------------------------------------------
@@ -1860,6 +1956,8 @@ func c05Corpus() []c05Case {
 			c.Proto.Algs = []string{"HS256", "HS384", "HS512", "ES256"}
 			c.Keys[0].Alg = "HS256"
 		}),
+		with(func(c *c05Case) { c.Tok.Mutation = "embedded-jwk" }),
+		with(func(c *c05Case) { c.Tok.Mutation = "embedded-jwk"; c.Tok.Kid = "" }),
 		with(func(c *c05Case) { c.Tok.Mutation = "payload-edit" }),
 		with(func(c *c05Case) { c.Tok.Mutation = "sig-flip"; c.Tok.Flip = 77 }),
 		with(func(c *c05Case) { c.Tok.Mutation = "sig-trailing-bits" }),
